@@ -7,7 +7,7 @@ extra = sys.argv[2] if len(sys.argv) > 2 else ""
 dst = "/var/tmp/w_%s" % prop.lower()
 if os.path.exists(dst):
     shutil.rmtree(dst)
-subprocess.check_call(["rsync", "-a", "--exclude", "build/", "--exclude", ".git/", "--exclude", "replays/", "/verif/", dst + "/"])
+subprocess.check_call(["rsync", "-a", "--exclude", "seeded/", "--exclude", "build/", "--exclude", ".git/", "--exclude", "replays/", "/verif/", dst + "/"])
 rec = [json.loads(l) for l in open("/verif/properties.jsonl") if json.loads(l)["id"] == prop][0]
 task = f"""# Task: build the verification package for property {prop} of tudo-math-ls3/feat3
 
